@@ -419,6 +419,8 @@ pub struct Script {
     /// once the scripted HTTP answers are used up: false = every further request gets a genuine 200 'no update', true = the
     /// last scripted answer is given again and again (a server that keeps failing the same way)
     pub repeat_last_http: bool,
+    /// the service URL was drawn from outside the URL grammar (construction failures are expected)
+    pub junk_service_url: bool,
 }
 
 impl Default for Script {
@@ -446,6 +448,7 @@ impl Default for Script {
             log_enabled: false,
             spoil_app_after_start: None,
             repeat_last_http: false,
+            junk_service_url: false,
         }
     }
 }
